@@ -670,6 +670,88 @@ func main() {
 	states += int64(len(sets))
 	trans += eqCalls
 	samples = append(samples, map[string]any{"equals_sets": len(sets), "real_triangulations": len(keys), "example": triples[:3]})
+	// larger sets in which one insertion re-triangulates a big cavity: a long convex chain (points near an arc,
+	// radii perturbed so that no four are cocircular) and one point that sees the whole chain, in four
+	// orientations; exact predicates: triangle count 2n-2-h, nothing strictly inside a circumcircle, and
+	// agreement with the slow reference
+	for _, m := range []int{12, 23, 40, 70} {
+		for rot := 0; rot < 4; rot++ {
+			vs := make(v2.VecSet, 0, m+1)
+			for i := 0; i < m; i++ {
+				a := (100.0+160.0*float64(i)/float64(m-1))*math.Pi/180.0 + float64(rot)*math.Pi/2
+				r := 10.0 + 1e-3*math.Sin(float64(7*i+1))
+				vs = append(vs, v2.Vec{X: r * math.Cos(a), Y: r * math.Sin(a)})
+			}
+			ca := float64(rot) * math.Pi / 2
+			vs = append(vs, v2.Vec{X: 0.3*math.Cos(ca) - 0.1*math.Sin(ca), Y: 0.3*math.Sin(ca) + 0.1*math.Cos(ca)})
+			n := len(vs)
+			in := append(v2.VecSet{}, vs...)
+			fast, err := render.Delaunay2d(in)
+			states++
+			desc := map[string]any{"config": fmt.Sprintf("arc of %d points + centre, rotated %d quarter turns", m, rot), "points": vs}
+			if err != nil {
+				c.Violation("Delaunay2d|error", fmt.Sprintf("arc of %d points + centre: %v", m, err), desc)
+				continue
+			}
+			// hull size by exact orientation tests (a point is on the hull iff some line through it has all others on one side)
+			h := 0
+			for i := 0; i < n; i++ {
+				on := false
+				for j := 0; j < n && !on; j++ {
+					if j == i {
+						continue
+					}
+					side, ok := 0, true
+					for k := 0; k < n && ok; k++ {
+						if k == i || k == j {
+							continue
+						}
+						o := orient(in[i], in[j], in[k])
+						if side == 0 {
+							side = o
+						} else if o != side {
+							ok = false
+						}
+					}
+					on = ok
+				}
+				if on {
+					h++
+				}
+			}
+			bad := ""
+			if len(fast) != 2*n-2-h {
+				bad = fmt.Sprintf("%d triangles, 2n-2-h = %d", len(fast), 2*n-2-h)
+			}
+			for _, t := range fast {
+				if bad != "" {
+					break
+				}
+				if t[0] < 0 || t[1] < 0 || t[2] < 0 || t[0] >= n || t[1] >= n || t[2] >= n || t[0] == t[1] || t[1] == t[2] || t[0] == t[2] {
+					bad = fmt.Sprintf("invalid triple %v", t)
+					break
+				}
+				a, b, d := in[t[0]], in[t[1]], in[t[2]]
+				if orient(a, b, d) < 0 {
+					b, d = d, b
+				}
+				for e := 0; e < n; e++ {
+					if e != t[0] && e != t[1] && e != t[2] && incircle(a, b, d, in[e]) > 0 {
+						bad = fmt.Sprintf("point %d lies strictly inside the circumcircle of triangle %v", e, t)
+						break
+					}
+				}
+			}
+			if bad == "" {
+				if slow, err := render.Delaunay2dSlow(in); err == nil && !append(render.TriangleISet{}, fast...).Equals(slow) {
+					bad = fmt.Sprintf("differs from Delaunay2dSlow (%d vs %d triangles)", len(fast), len(slow))
+				}
+			}
+			if bad != "" {
+				c.Violation("Delaunay2d|large-cavity|not-the-delaunay-triangulation", fmt.Sprintf("arc of %d points + a point that sees them all (rotated %d quarter turns): %s", m, rot, bad), desc)
+			}
+		}
+	}
 	// histories: a result that is kept while further triangulations are computed must not change (the result
 	// belongs to the caller), for the fast and the reference implementation, smaller / equal / larger second sets
 	{
